@@ -407,6 +407,7 @@ func c10(e *Env) {
 	e.auditBeforeRename("R7", "Execute:auditWrite≺rename")
 	// ---- R8 one record (one ID) per task execution
 	e.oneRecordPerTask("R8")
+	e.setAuditInfoStores("R2")
 	// ---- R6 the record is attached before the IP is published (shared with C17.R5)
 	e.recordBeforePublish("R6")
 }
@@ -681,4 +682,42 @@ func (e *Env) oneRecordPerTask(rule string) {
 		}
 	}
 	ob.OK(g.Where(rn), "created once per task execution, outside the loop over the out-IPs")
+}
+
+// setAuditInfoStores (C10.R2): SetAuditInfo really attaches the record: its argument is stored into the IP's record
+// cache on every path (under the IP lock: C12.R1). Otherwise AddTags / WriteAuditLogToFile work on a lazily loaded,
+// empty record and the audit file of the output contains nothing of the task.
+func (e *Env) setAuditInfoStores(rule string) {
+	ob := e.R.Ob(rule, "(*FileIP).SetAuditInfo:stores-argument", "SetAuditInfo stores its argument in the IP's audit-record cache on every returning path")
+	fn := e.P.DeclaredMethod("scipipe", "FileIP", "SetAuditInfo")
+	if fn == nil || len(fn.Params) != 2 {
+		ob.Unknown("-", "(*FileIP).SetAuditInfo not found")
+		return
+	}
+	g := e.XG(fn)
+	if g == nil {
+		return
+	}
+	arg := ssa.Value(fn.Params[1])
+	isStore := func(n *core.Node) bool {
+		st, ok := n.Instr.(*ssa.Store)
+		if !ok {
+			return false
+		}
+		fa, ok := st.Addr.(*ssa.FieldAddr)
+		if !ok || fieldOfAddr(fa) == nil || !isPtrToNamed(fieldOfAddr(fa).Type(), "AuditInfo") {
+			return false
+		}
+		_, v := rootVal(n.Ctx, st.Val)
+		return v == arg
+	}
+	entry := g.Run(core.Scenario{Start: g.Entry, AtEntry: true})
+	switch {
+	case len(g.Select(isStore)) == 0:
+		ob.Fail(core.FuncName(fn), "the argument is never stored into the IP's record field: the record built for the task is not attached to its outputs, their audit files are written from an empty, lazily loaded record")
+	case entry.ReachesAvoiding(func(m *core.Node) bool { return m.Kind == core.KRootRet }, isStore) != nil:
+		ob.Fail(core.FuncName(fn), "SetAuditInfo can return without storing the record")
+	default:
+		ob.OK(core.FuncName(fn), "record cache ← argument on every path")
+	}
 }
